@@ -9,6 +9,7 @@ import YangVerif.Drv.C11
 import YangVerif.Drv.Data
 import YangVerif.Drv.C08
 import YangVerif.Drv.C09
+import YangVerif.Drv.C12
 
 def dispatch (line : String) : String :=
   match (line.trimAscii.toString.splitOn " ").filter (· ≠ "") with
@@ -19,6 +20,7 @@ def dispatch (line : String) : String :=
   | "data" :: rest => YangVerif.Drv.Data.handle rest
   | "c08" :: rest => YangVerif.Drv.C08.handle rest
   | "c09" :: rest => YangVerif.Drv.C09.handle rest
+  | "c12" :: rest => YangVerif.Drv.C12.handle rest
   | _ => "bad-op"
 
 partial def loop (h : IO.FS.Stream) (out : IO.FS.Stream) : IO Unit := do
